@@ -830,3 +830,49 @@ Print Assumptions build_traf_source_agrees.
 Print Assumptions build_moof_with_offset_source_agrees.
 Print Assumptions build_moof_source_agrees.
 Print Assumptions build_media_segment_source_agrees.
+
+(* ---- Annex B -> length-prefixed re-framing (src/codec/h264.rs annexb_to_avcc, src/codec/h265.rs hevc_annexb_to_hvcc).
+   The NAL iterator is NOT translated: the translation takes the list of the units it yields as its first parameter
+   [nals]; the theorems instantiate it with the model's [nal_iter data] (Model/Annexb.v), for the same [data] the
+   source passes to AnnexBNalIter::new.  No size hypothesis: the source writes [(nal.len() as u32).to_be_bytes()],
+   translated as [be32 (u32 (len nal))]; the model writes [be32 (len nal)], and [be32] itself keeps the low 32 bits
+   ([be32_wrap]), so the two agree for units of every length, wrapped or not. *)
+From Muxide Require Import Model.Annexb.
+
+Lemma len_cons_nonzero {A} (x : A) (l : list A) : (len (x :: l) =? 0) = false.
+Proof. unfold len. apply N.eqb_neq. simpl length. rewrite Nat2N.inj_succ. apply N.neq_succ_0. Qed.
+
+(* the loop: empty units skipped by [continue], the others prefixed by their 4-byte big-endian length *)
+Lemma reframe_loop : forall nals : list (list N),
+  flat_map (fun nal : list N => if len nal =? 0 then [] else be32 (u32 (len nal)) ++ nal) nals
+  = len_prefixed (filter nonempty nals).
+Proof.
+  induction nals as [|nal t IH]; [reflexivity|].
+  cbn [flat_map filter]. rewrite IH. destruct nal as [|b r]; [reflexivity|].
+  rewrite len_cons_nonzero, be32_wrap. unfold nonempty, len_prefixed. cbn [map concat].
+  rewrite <- app_assoc. reflexivity.
+Qed.
+
+(* loop + fallback (nothing written and a non-empty input: the whole input as one unit) *)
+Lemma reframe_agrees : forall (nals : list (list N)) (data : list N),
+  (let out := flat_map (fun nal : list N => if len nal =? 0 then [] else be32 (u32 (len nal)) ++ nal) nals in
+   out ++ (if (len out =? 0) && negb (len data =? 0) then be32 (u32 (len data)) ++ data else []))
+  = (let out := len_prefixed (filter nonempty nals) in
+     match out, data with [], _ :: _ => be32 (len data) ++ data | _, _ => out end).
+Proof.
+  intros. cbv zeta. rewrite reframe_loop.
+  destruct (len_prefixed (filter nonempty nals)) as [|x o].
+  - destruct data as [|d ds]; [reflexivity|].
+    rewrite len_cons_nonzero, be32_wrap. reflexivity.
+  - rewrite len_cons_nonzero. cbn [andb]. apply app_nil_r.
+Qed.
+
+Theorem annexb_to_avcc_source_agrees : forall data,
+  annexb_to_avcc_src (nal_iter data) data = annexb_to_avcc data.
+Proof. intros. unfold annexb_to_avcc_src, annexb_to_avcc. exact (reframe_agrees (nal_iter data) data). Qed.
+Print Assumptions annexb_to_avcc_source_agrees.
+
+Theorem hevc_annexb_to_hvcc_source_agrees : forall data,
+  hevc_annexb_to_hvcc_src (nal_iter data) data = hevc_annexb_to_hvcc data.
+Proof. intros. unfold hevc_annexb_to_hvcc_src, hevc_annexb_to_hvcc, annexb_to_avcc. exact (reframe_agrees (nal_iter data) data). Qed.
+Print Assumptions hevc_annexb_to_hvcc_source_agrees.
